@@ -104,8 +104,10 @@ pub struct Prog {
     pub render: Vec<usize>,
     /// node id -> keyword for effects created through another constructor (seff / ieff / weff / wieff)
     pub other: Vec<(usize, &'static str)>,
-    /// memoc nodes (leaves): node id -> bucket width of the coarse comparator
+    /// memoc / memoh nodes (leaves): node id -> bucket width of the coarse comparator (0 = `memoh`, high-water mark)
     pub coarse: Vec<(usize, i64)>,
+    /// watch effects: node id -> the signal the handler reads
+    pub handler: Vec<(usize, usize)>,
     pub tags: Vec<&'static str>,
 }
 
@@ -121,7 +123,7 @@ fn gen_memoc(r: &mut Rng, defs: &mut Vec<Def>, coarse: &mut Vec<(usize, i64)>, u
     if r.chance(1, 2) && !sigs.is_empty() {
         e = Expr::Add(Box::new(Expr::Rd(true, *r.pick(&sigs))), Box::new(e));
     }
-    let k = *r.pick(&[2i64, 2, 3, 3, 4, 5, 9]);
+    let k = *r.pick(&[2i64, 2, 3, 3, 4, 5, 9, 0, 0]);
     defs.push(Def::Memo(e));
     coarse.push((defs.len() - 1, k));
 }
@@ -148,6 +150,7 @@ pub fn gen_prog_with(r: &mut Rng, mode: Mode, more_untracked: bool) -> Prog {
     let mut written_by_stage: Vec<usize> = vec![];
     let mut render: Vec<usize> = vec![];
     let mut other: Vec<(usize, &'static str)> = vec![];
+    let mut handler: Vec<(usize, usize)> = vec![];
     for k in 0..stages {
         let nmemo = match mode {
             Mode::C01 => r.range(1, 7),
@@ -166,6 +169,19 @@ pub fn gen_prog_with(r: &mut Rng, mode: Mode, more_untracked: bool) -> Prog {
             let depth = g.r.range(1, 3);
             let e = g.expr(&biased, depth);
             defs.push(Def::Memo(e));
+            // diamond whose top reads the cut-off branch BEFORE the shared memo (a; b = cutoff(a); top = b + a): while top
+            // checks b, a recomputes and marks top dirty although b reports "unchanged"
+            let a = defs.len() - 1;
+            if r.chance(1, 10) {
+                let rd = |i: usize| Box::new(Expr::Rd(true, i));
+                let b = if r.chance(1, 2) {
+                    Expr::Ite(rd(a), Box::new(Expr::Lit(1)), Box::new(Expr::Lit(0)))
+                } else {
+                    Expr::Mulc(0, rd(a))
+                };
+                defs.push(Def::Memo(b));
+                defs.push(Def::Memo(Expr::Add(rd(a + 1), rd(a))));
+            }
         }
         if want_coarse && (mode == Mode::C01 || r.chance(1, 2)) {
             for _ in 0..r.range(1, 2) {
@@ -231,7 +247,16 @@ pub fn gen_prog_with(r: &mut Rng, mode: Mode, more_untracked: bool) -> Prog {
             if r.chance(1, 4) {
                 render.push(defs.len() - 1);
             } else if r.chance(1, 3) {
-                other.push((defs.len() - 1, *r.pick(&["seff", "ieff", "weff", "wieff"])));
+                let kw = *r.pick(&["seff", "ieff", "weff", "wieff", "wseff", "wsieff", "wieff", "wsieff", "rieff", "rieff"]);
+                other.push((defs.len() - 1, kw));
+                if kw.starts_with('w') && r.chance(3, 4) {
+                    // the handler reads a signal, preferably one the dependency function does not depend on
+                    let mut anc = vec![];
+                    ancestors(&defs, defs.len() - 1, &mut anc);
+                    let sigs: Vec<usize> = (0..defs.len()).filter(|i| matches!(defs[*i], Def::Sig(_))).collect();
+                    let free: Vec<usize> = sigs.iter().copied().filter(|i| !anc.contains(i)).collect();
+                    handler.push((defs.len() - 1, if free.is_empty() { *r.pick(&sigs) } else { *r.pick(&free) }));
+                }
             }
         }
     }
@@ -281,13 +306,29 @@ pub fn gen_prog_with(r: &mut Rng, mode: Mode, more_untracked: bool) -> Prog {
     if !other.is_empty() {
         tags.push("effkinds");
     }
-    if !coarse.is_empty() {
+    if coarse.iter().any(|c| c.1 != 0) {
         tags.push("memoc");
+    }
+    if coarse.iter().any(|c| c.1 == 0) {
+        tags.push("memoh");
+    }
+    if handler.iter().any(|(e, h)| {
+        let mut anc = vec![];
+        ancestors(&defs, *e, &mut anc);
+        !anc.contains(h)
+    }) {
+        tags.push("whandler");
+    }
+    if other.iter().any(|o| o.1 == "rieff") {
+        tags.push("rieff");
+    }
+    if other.iter().any(|o| o.1.starts_with("ws")) {
+        tags.push("watchsync");
     }
     if tags.is_empty() {
         tags.push("plain");
     }
-    Prog { defs, render, other, coarse, tags }
+    Prog { defs, render, other, coarse, handler, tags }
 }
 
 pub fn write_prog(f: &mut impl Write, p: &Prog) -> std::io::Result<()> {
@@ -295,14 +336,18 @@ pub fn write_prog(f: &mut impl Write, p: &Prog) -> std::io::Result<()> {
         match d {
             Def::Sig(v) => writeln!(f, "sig {v}")?,
             Def::Key(..) => {}
-            Def::Memo(b) if p.coarse.iter().any(|c| c.0 == i) => {
-                writeln!(f, "memoc {} {}", p.coarse.iter().find(|c| c.0 == i).unwrap().1, show_expr(b))?
-            }
+            Def::Memo(b) if p.coarse.iter().any(|c| c.0 == i) => match p.coarse.iter().find(|c| c.0 == i).unwrap().1 {
+                0 => writeln!(f, "memoh {}", show_expr(b))?,
+                k => writeln!(f, "memoc {k} {}", show_expr(b))?,
+            },
             Def::Memo(b) => writeln!(f, "memo {}", show_expr(b))?,
             Def::Eff(b) if p.render.contains(&i) => writeln!(f, "reff {}", show_expr(b))?,
             Def::Eff(b) if p.other.iter().any(|o| o.0 == i) => {
                 let kw = p.other.iter().find(|o| o.0 == i).unwrap().1;
-                writeln!(f, "{kw} {}", show_expr(b))?
+                match p.handler.iter().find(|h| h.0 == i) {
+                    Some((_, h)) => writeln!(f, "{kw} h{h} {}", show_expr(b))?,
+                    None => writeln!(f, "{kw} {}", show_expr(b))?,
+                }
             }
             Def::Eff(b) => writeln!(f, "eff {}", show_expr(b))?,
         }
@@ -483,6 +528,168 @@ fn gen_selector_case(r: &mut Rng, mode: Mode) -> (Vec<&'static str>, Vec<String>
     (tags, lines)
 }
 
+/// A slice case: an `RwSignal` holding a struct of two fields, 2-4 slices over it (getter field g, setter field s;
+/// g != s is the asymmetric pair: the setter changes state its own getter does not show), memos over slices and plain
+/// signals, optional effects; writes go through slice setters and directly to the fields.
+fn gen_slice_case(r: &mut Rng, mode: Mode) -> (Vec<&'static str>, Vec<String>) {
+    let mut lines: Vec<String> = vec![];
+    let mut defs: Vec<Def> = vec![];
+    let mut tags = vec!["slice"];
+    let mut plain: Vec<usize> = vec![];
+    if r.chance(1, 2) {
+        let v = r.below(3) as i64;
+        defs.push(Def::Sig(v));
+        plain.push(0);
+        lines.push(format!("sig {v}"));
+    }
+    let first = defs.len();
+    let (a, b) = (r.below(3) as i64, r.below(3) as i64);
+    defs.push(Def::Sig(a));
+    defs.push(Def::Sig(b));
+    lines.push(format!("ssig {a} {b}"));
+    let mut slices: Vec<usize> = vec![];
+    let mut asym = false;
+    for k in 0..r.range(2, 4) {
+        // the first two slices show both fields, so that every write is visible through some other slice
+        let g = if k < 2 { k } else { r.below(2) };
+        let st = if r.chance(1, 2) { g } else { 1 - g };
+        asym |= g != st;
+        defs.push(Def::Memo(Expr::Seq(Box::new(Expr::Rd(true, first + 1 - g)), Box::new(Expr::Rd(true, first + g)))));
+        slices.push(defs.len() - 1);
+        lines.push(format!("slice {first} {g} {st}"));
+    }
+    if asym {
+        tags.push("slicea");
+    }
+    let mut readable: Vec<usize> = plain.iter().chain(slices.iter()).copied().collect();
+    for _ in 0..r.range(1, 4) {
+        let mut g = G { r, untracked: false };
+        let depth = g.r.range(1, 2);
+        let e = g.expr(&readable, depth);
+        lines.push(format!("memo {}", show_expr(&e)));
+        defs.push(Def::Memo(e));
+        readable.push(defs.len() - 1);
+    }
+    let mut has_eff = false;
+    if mode != Mode::C01 {
+        for _ in 0..r.range(1, 2) {
+            let mut g = G { r, untracked: false };
+            let e = g.expr(&readable, 1);
+            let kw = *r.pick(&["eff", "eff", "reff", "seff", "ieff", "rieff"]);
+            lines.push(format!("{kw} {}", show_expr(&e)));
+            defs.push(Def::Eff(e));
+            has_eff = true;
+        }
+    }
+    for _ in 0..r.range(6, 24) {
+        match r.below(12) {
+            0..=3 => lines.push(format!("sset {} {}", *r.pick(&slices), r.below(3))),
+            4 => lines.push(format!("set {} {}", first + r.below(2), r.below(3))),
+            5 if !plain.is_empty() => lines.push(format!("set {} {}", plain[0], r.below(3))),
+            6 | 7 if has_eff => lines.push(if r.chance(1, 3) { "idle".into() } else { format!("poll {}", r.below(3)) }),
+            _ => {
+                let all: Vec<usize> = (0..defs.len()).filter(|i| !matches!(defs[*i], Def::Eff(_))).collect();
+                lines.push(format!("read {}", if r.chance(2, 3) { *r.pick(&readable) } else { *r.pick(&all) }));
+            }
+        }
+    }
+    if has_eff {
+        lines.push("idle".into());
+    }
+    (tags, lines)
+}
+
+/// An immediate-effect case: signals, memos over signals (depth 1), deeper memos for ordinary effects, 1-3 `imeff`
+/// nodes with admissible bodies (see `imm_ok`), ordinary non-writing effects of every constructor; no lifecycle ops.
+fn gen_imm_case(r: &mut Rng) -> (Vec<&'static str>, Vec<String>) {
+    let mut lines: Vec<String> = vec![];
+    let mut defs: Vec<Def> = vec![];
+    let mut tags = vec!["imm"];
+    let nsig = r.range(2, 4);
+    for _ in 0..nsig {
+        let v = r.below(3) as i64;
+        defs.push(Def::Sig(v));
+        lines.push(format!("sig {v}"));
+    }
+    let sigs: Vec<usize> = (0..nsig).collect();
+    let rd = |i: usize| Box::new(Expr::Rd(true, i));
+    let mut shallow: Vec<usize> = vec![];
+    for _ in 0..r.range(1, 4) {
+        let e = match r.below(4) {
+            0 => Expr::Rd(true, *r.pick(&sigs)),
+            1 => Expr::Add(rd(*r.pick(&sigs)), rd(*r.pick(&sigs))),
+            2 => Expr::Ite(rd(*r.pick(&sigs)), rd(*r.pick(&sigs)), Box::new(Expr::Lit(r.below(3) as i64))),
+            _ => Expr::Mulc(*r.pick(&[0i64, 1, 2]), rd(*r.pick(&sigs))),
+        };
+        lines.push(format!("memo {}", show_expr(&e)));
+        defs.push(Def::Memo(e));
+        shallow.push(defs.len() - 1);
+    }
+    let mut readable: Vec<usize> = sigs.iter().chain(shallow.iter()).copied().collect();
+    if r.chance(1, 2) {
+        let mut g = G { r, untracked: false };
+        let e = g.expr(&readable, 2);
+        lines.push(format!("memo {}", show_expr(&e)));
+        defs.push(Def::Memo(e));
+        readable.push(defs.len() - 1);
+    }
+    let cands: Vec<usize> = sigs.iter().chain(shallow.iter()).copied().collect();
+    let nimm = r.range(1, 3);
+    let neff = r.range(0, 2);
+    let mut kinds: Vec<bool> = (0..nimm).map(|_| true).chain((0..neff).map(|_| false)).collect();
+    // interleave the creation order
+    for i in (1..kinds.len()).rev() {
+        kinds.swap(i, r.below(i + 1));
+    }
+    let mut has_eff = false;
+    for is_imm in kinds {
+        if is_imm {
+            // greedily pick directly read nodes with pairwise disjoint signal ancestors
+            let mut picked: Vec<usize> = vec![];
+            let mut used: Vec<usize> = vec![];
+            for _ in 0..r.range(1, 3) {
+                let c = *r.pick(&cands);
+                let mut anc = vec![];
+                ancestors(&defs, c, &mut anc);
+                if !picked.contains(&c) && !anc.iter().any(|x| used.contains(x)) {
+                    used.extend(anc);
+                    picked.push(c);
+                }
+            }
+            let e = match picked.as_slice() {
+                [a] => Expr::Rd(true, *a),
+                [a, b] if r.chance(1, 3) => Expr::Ite(rd(*a), rd(*b), Box::new(Expr::Lit(0))),
+                [a, b] => Expr::Add(rd(*a), rd(*b)),
+                [a, b, c, ..] => Expr::Add(rd(*a), Box::new(Expr::Add(rd(*b), rd(*c)))),
+                [] => Expr::Lit(0),
+            };
+            debug_assert!(imm_ok(&defs, &e));
+            lines.push(format!("imeff {}", show_expr(&e)));
+            defs.push(Def::Eff(e));
+        } else {
+            let mut g = G { r, untracked: false };
+            let e = g.expr(&readable, 1);
+            let kw = *r.pick(&["eff", "eff", "reff", "seff", "ieff", "rieff", "wieff"]);
+            lines.push(format!("{kw} {}", show_expr(&e)));
+            defs.push(Def::Eff(e));
+            has_eff = true;
+        }
+    }
+    let memos: Vec<usize> = (0..defs.len()).filter(|i| matches!(defs[*i], Def::Memo(_))).collect();
+    for _ in 0..r.range(6, 24) {
+        match r.below(10) {
+            0..=4 => lines.push(format!("set {} {}", *r.pick(&sigs), r.below(3))),
+            5 | 6 if has_eff => lines.push(if r.chance(1, 3) { "idle".into() } else { format!("poll {}", r.below(3)) }),
+            _ => lines.push(format!("read {}", *r.pick(&memos))),
+        }
+    }
+    if has_eff {
+        lines.push("idle".into());
+        tags.push("immtask");
+    }
+    (tags, lines)
+}
+
 /// F-C02-3 (repaired by /repo commit 2b9d3c6, hooks/fix-c02-3.patch): before the repair a write through `WriteSignal` /
 /// `ArcWriteSignal` drained the signal's subscriber set, so an effect that consumed a notification while paused was never
 /// notified again.  `false` keeps split handles out of cases with pause / resume ops (needed only on a tree without the repair).
@@ -494,25 +701,61 @@ pub fn gen(mode: Mode, seed: u64, n: usize, path: &str, _tier: &str) -> std::io:
     for i in 0..n {
         // accessor / constructor variety on half of the cases
         let acc: Option<usize> = if r.chance(1, 2) { Some(r.below(60) as usize) } else { None };
-        if mode != Mode::C01 && r.chance(1, if mode == Mode::C02 { 4 } else { 6 }) {
-            let (mut tags, lines) = gen_selector_case(&mut r, mode);
+        let special = r.below(24);
+        let special: Option<(Vec<&'static str>, Vec<String>)> = match (mode, special) {
+            (Mode::C02, 0..=5) | (Mode::C09, 0..=3) => Some(gen_selector_case(&mut r, mode)),
+            (Mode::C01, 0..=3) | (Mode::C09, 4..=5) | (Mode::C02, 6..=7) => Some(gen_slice_case(&mut r, mode)),
+            (Mode::C09, 6..=8) | (Mode::C02, 8..=10) => Some(gen_imm_case(&mut r)),
+            _ => None,
+        };
+        if let Some((mut tags, lines)) = special {
             if acc.is_some() {
                 tags.push("acc");
+            }
+            let oncl = mode != Mode::C01 && r.chance(1, 3);
+            if oncl {
+                tags.push("oncl");
+            }
+            let wrap = if r.chance(1, 3) { r.range(1, 5) } else { 0 };
+            match wrap {
+                3 => tags.push("mapped"),
+                4 | 5 => tags.push("maybe"),
+                _ => {}
             }
             writeln!(f, "case {i}:{}", tags.join(","))?;
             writeln!(f, "mode {}", if r.chance(1, 2) { "arena" } else { "arc" })?;
             if let Some(a) = acc {
                 writeln!(f, "acc {a}")?;
             }
-            if r.chance(1, 4) {
-                writeln!(f, "wrap {}", r.range(1, 2))?;
+            if wrap != 0 {
+                writeln!(f, "wrap {wrap}")?;
+            }
+            if oncl {
+                writeln!(f, "oncl")?;
             }
             for l in lines {
                 writeln!(f, "{l}")?;
             }
             continue;
         }
-        let p = gen_prog_with(&mut r, mode, acc.is_some());
+        // the wrapper families matter most for untracked reads through every accessor
+        let wrap = if r.chance(2, 5) { r.range(1, 5) } else { 0 };
+        let acc = if wrap >= 3 && acc.is_none() && r.chance(2, 3) { Some(r.below(60)) } else { acc };
+        let mut p = gen_prog_with(&mut r, mode, acc.is_some() || wrap >= 3);
+        // a memo nobody reads, evaluated first and dropped later: a dead entry ahead of the live subscribers
+        let dropm: Option<usize> = if r.chance(1, 5) {
+            let sigs: Vec<usize> = (0..p.defs.len()).filter(|i| matches!(p.defs[*i], Def::Sig(_))).collect();
+            let e = if sigs.len() >= 2 && r.chance(1, 2) {
+                Expr::Add(Box::new(Expr::Rd(true, sigs[0])), Box::new(Expr::Rd(true, sigs[1])))
+            } else {
+                Expr::Rd(true, *r.pick(&sigs))
+            };
+            p.defs.push(Def::Memo(e));
+            p.tags.push("dropped");
+            Some(p.defs.len() - 1)
+        } else {
+            None
+        };
         let mut tags = p.tags.clone();
         let has_eff = p.defs.iter().any(|d| matches!(d, Def::Eff(_)));
         let lifecycle = has_eff && r.chance(1, 4);
@@ -534,7 +777,14 @@ pub fn gen(mode: Mode, seed: u64, n: usize, path: &str, _tier: &str) -> std::io:
         let sigs: Vec<usize> = p.defs.iter().enumerate().filter(|(_, d)| matches!(d, Def::Sig(_))).map(|x| x.0).collect();
         let readable: Vec<usize> =
             p.defs.iter().enumerate().filter(|(_, d)| matches!(d, Def::Memo(_) | Def::Sig(_))).map(|x| x.0).collect();
-        let memos: Vec<usize> = p.defs.iter().enumerate().filter(|(_, d)| matches!(d, Def::Memo(_))).map(|x| x.0).collect();
+        let readable: Vec<usize> = readable.into_iter().filter(|i| Some(*i) != dropm).collect();
+        let memos: Vec<usize> = p
+            .defs
+            .iter()
+            .enumerate()
+            .filter(|(i, d)| matches!(d, Def::Memo(_)) && Some(*i) != dropm)
+            .map(|x| x.0)
+            .collect();
         let leaves: Vec<usize> = p.coarse.iter().map(|c| c.0).collect();
         let effs: Vec<usize> = p.defs.iter().enumerate().filter(|(_, d)| matches!(d, Def::Eff(_))).map(|x| x.0).collect();
         if lifecycle {
@@ -543,7 +793,14 @@ pub fn gen(mode: Mode, seed: u64, n: usize, path: &str, _tier: &str) -> std::io:
         let mut ops = vec![];
         let mut cur: Vec<i64> = p.defs.iter().map(|d| if let Def::Sig(v) = d { *v } else { 0 }).collect();
         let mut eqwrite = false;
-        for _ in 0..len {
+        let drop_at = r.range(1, len / 2 + 1);
+        if let Some(m) = dropm {
+            ops.push(format!("read {m}"));
+        }
+        for step in 0..len {
+            if let (Some(m), true) = (dropm, step == drop_at) {
+                ops.push(format!("drop {m}"));
+            }
             let k = r.below(10);
             if lifecycle && r.chance(1, 6) {
                 let e = *r.pick(&effs);
@@ -581,14 +838,25 @@ pub fn gen(mode: Mode, seed: u64, n: usize, path: &str, _tier: &str) -> std::io:
         if eqwrite {
             tags.push("eqwrite");
         }
+        match wrap {
+            3 => tags.push("mapped"),
+            4 | 5 => tags.push("maybe"),
+            _ => {}
+        }
+        let oncl = has_eff && r.chance(1, 3);
+        if oncl {
+            tags.push("oncl");
+        }
         writeln!(f, "case {i}:{}", tags.join(","))?;
         writeln!(f, "mode {}", if arena { "arena" } else { "arc" })?;
         if let Some(a) = acc {
             writeln!(f, "acc {a}")?;
         }
-        let wrap = if r.chance(1, 3) { r.range(1, 2) } else { 0 };
         if wrap != 0 {
             writeln!(f, "wrap {wrap}")?;
+        }
+        if oncl {
+            writeln!(f, "oncl")?;
         }
         write_prog(&mut f, &p)?;
         for o in ops {
